@@ -6,6 +6,7 @@ import (
 	"encoding/json"
 	"fmt"
 	"math/rand/v2"
+	"os"
 	"path/filepath"
 	"sort"
 	"strings"
@@ -69,6 +70,10 @@ func (c19) Gen(r *rand.Rand, tier string, idx int) *core.Plan {
 			p.Ops = append(p.Ops, core.Op{Kind: "legacy", I: []int64{s, int64(r.IntN(8)), int64(r.IntN(2))}})
 		case x < 15:
 			p.Ops = append(p.Ops, core.Op{Kind: "reopen"})
+			if r.IntN(3) == 0 {
+				// the manifest file of a pushed signature goes missing on disk (the store still knows of it)
+				p.Ops = append(p.Ops, core.Op{Kind: "lose-manifest", I: []int64{s}}, core.Op{Kind: "list", I: []int64{s}})
+			}
 		default:
 			p.Ops = append(p.Ops, core.Op{Kind: "list", I: []int64{s}})
 		}
@@ -151,6 +156,9 @@ func (l c19) Exec(env *core.Env) *core.Result {
 	model := map[int][]c19Sig{}
 	hostile := map[int]map[digest.Digest]string{0: {}, 1: {}, 2: {}} // manifest digest -> why
 	disturbed := false
+	manifests := map[int][][2]digest.Digest{}  // (manifest digest, envelope digest) of the signatures pushed, per subject
+	lost := map[int]bool{}                     // a manifest file of this subject was removed from the disk: listing it must fail
+	lostEnvelope := map[int]digest.Digest{}    // ... the envelope digest of that signature
 	crossManifests := map[digest.Digest]bool{} // signature manifests whose one "blob" is itself a manifest
 	var trace []map[string]any
 	var task *rt.Task
@@ -183,7 +191,7 @@ func (l c19) Exec(env *core.Env) *core.Result {
 					ann = map[string]string{"a": fmt.Sprint(envN), "b": "x y z", "org.opencontainers.image.created": "2001-02-03T04:05:06Z"}
 				}
 				before := task.FaultsSeen
-				_, _, err := repo.PushSignature(ctx, mt, blob, subjects[s], ann)
+				_, pushedManifest, err := repo.PushSignature(ctx, mt, blob, subjects[s], ann)
 				faulted := task.FaultsSeen != before
 				trace = append(trace, map[string]any{"op": "push", "subject": s, "n": envN, "size": size, "err": fmt.Sprint(err)})
 				sim.Abstract(fmt.Sprint("push", s, mt, size, err == nil))
@@ -195,6 +203,23 @@ func (l c19) Exec(env *core.Env) *core.Result {
 					continue // a failed push leaves no listed signature
 				}
 				model[s] = append(model[s], c19Sig{mt, digest.FromBytes(blob), size, ann})
+				manifests[s] = append(manifests[s], [2]digest.Digest{pushedManifest.Digest, digest.FromBytes(blob)})
+			case "lose-manifest":
+				if p.W("disk") != 1 || len(manifests[s]) == 0 {
+					continue
+				}
+				if lost[s] {
+					continue // one at a time
+				}
+				last := manifests[s][len(manifests[s])-1]
+				manifests[s] = manifests[s][:len(manifests[s])-1]
+				d := last[0]
+				if os.Remove(filepath.Join(layout, "blobs", d.Algorithm().String(), d.Encoded())) == nil {
+					lost[s], lostEnvelope[s] = true, last[1]
+					disturbed = true
+					res.Probe("manifest_file_of_a_pushed_signature_removed")
+					sim.Abstract(fmt.Sprint("lose-manifest", s))
+				}
 			case "foreign":
 				subj := subjects[s]
 				switch op.Int(1) {
@@ -312,6 +337,19 @@ func (l c19) Exec(env *core.Env) *core.Result {
 						repo = mkRepo()
 						disturbed = true
 						sim.Abstract("reopen")
+						// a store opened after a manifest file went missing never learns of that signature: it is
+						// simply no longer there
+						for sj := range lost {
+							if lost[sj] {
+								for i, m := range model[sj] {
+									if m.sum == lostEnvelope[sj] {
+										model[sj] = append(append([]c19Sig{}, model[sj][:i]...), model[sj][i+1:]...)
+										break
+									}
+								}
+							}
+							lost[sj] = false
+						}
 					}
 				}
 			case "list":
@@ -355,7 +393,7 @@ func (l c19) Exec(env *core.Env) *core.Result {
 					}
 				}
 				if lerr != nil {
-					if task.FaultsSeen == before && !bigHostile && !fired {
+					if task.FaultsSeen == before && !bigHostile && !fired && !lost[s] {
 						res.Violate("C19/listing-failed", fmt.Sprint("subject ", s), "ListSignatures failed with no injected fault and no oversized referrer: %v", lerr)
 					}
 					sim.Abstract(fmt.Sprint("list", s, "err"))
